@@ -1584,7 +1584,14 @@ func (rc *RegClient) imageImportOCIHandleManifest(ctx context.Context, r ref.Ref
 		if len(dl) == 1 {
 			d = dl[0]
 		} else if r.Digest != "" {
+			// use the index entry with that digest (it carries the media type), fall back to the bare digest
 			d.Digest = digest.Digest(r.Digest)
+			for _, cur := range dl {
+				if cur.Digest.String() == r.Digest {
+					d = cur
+					break
+				}
+			}
 		} else if trd.name != "" {
 			for _, cur := range dl {
 				if cur.Annotations[annotationRefName] == trd.name {
